@@ -39,6 +39,9 @@ pub fn tryproj(seed: u64, verbose: bool) -> i32 {
         let (mut project, capture) = new_project(&disk.root).expect("project");
         let b = do_build(&mut project, &disk.root, &opts);
         println!("build ok={} errors={:?} blueprint={} bytes", b.ok, b.errors, b.blueprint.len());
+        if std::env::var_os("SHOW_BLUEPRINT").is_some() {
+            println!("{}", b.blueprint);
+        }
         let (mut project, capture2) = new_project(&disk.root).expect("project");
         let _ = capture;
         let c = do_check(&mut project, &capture2, &disk.root, &opts, false);
